@@ -43,7 +43,7 @@ func (c *LabCase) ExprText() string {
 	if c.Text != nil {
 		return string(intsToBytes(*c.Text))
 	}
-	if c.Op == "Apply" {
+	if c.Op == "Apply" || c.Op == "ApplyText" {
 		return PrintUpdate(c.Ast)
 	}
 	return PrintCond(c.Ast)
@@ -75,6 +75,14 @@ func RunLab(c *LabCase) map[string]LabOut {
 	withPK[labPK] = SVal("k")
 	key := Item{labPK: SVal("k")}
 
+	if c.Op == "MatchText" {
+		c.Op = "Match"
+		defer func() { c.Op = "MatchText" }()
+	}
+	if c.Op == "ApplyText" {
+		c.Op = "Apply"
+		defer func() { c.Op = "ApplyText" }()
+	}
 	if c.Op == "Match" {
 		res["lang"] = labGuard(func() LabOut {
 			item := ItemToCore(c.Item)
@@ -206,5 +214,9 @@ func LabLine(c *LabCase, res map[string]LabOut) ([]byte, error) {
 		return nil, err
 	}
 	line["r"] = j
+	if _, ok := line["text"]; !ok {
+		t, _ := json.Marshal(bytesToInts([]byte(c.ExprText())))
+		line["text"] = t
+	}
 	return json.Marshal(line)
 }
